@@ -5,6 +5,7 @@ import (
 	"fmt"
 	"hash/crc32"
 	"io"
+	"os"
 	"reflect"
 	"time"
 
@@ -138,6 +139,13 @@ func (cs *State) catchupReplay(csHeight int64) error {
 			// since. Write the marker now: without it nothing we log for csHeight
 			// could ever be replayed, and after another crash the node would come
 			// back with its votes for csHeight signed but forgotten.
+			// The marker may be missing because the crash tore it (or a record before
+			// it) while it was being written. Never append behind a torn record: it
+			// would swallow everything written after it. Reporting the corruption makes
+			// OnStart repair the head file and call us again.
+			if err := checkWALHeadDecodable(cs.config.WalFile()); err != nil {
+				return err
+			}
 			cs.Logger.Info("WAL does not contain #ENDHEIGHT for the last stored block; writing it", "height", endHeight)
 			if err := cs.wal.WriteSync(EndHeightMessage{endHeight}); err != nil {
 				return err
@@ -175,6 +183,27 @@ LOOP:
 	}
 	cs.Logger.Info("Replay: Done")
 	return nil
+}
+
+// checkWALHeadDecodable decodes the WAL head file to its end and returns the
+// DataCorruptionError of the first record that cannot be decoded, if any.
+func checkWALHeadDecodable(walFile string) error {
+	f, err := os.Open(walFile)
+	if err != nil {
+		return nil
+	}
+	defer f.Close()
+
+	dec := NewWALDecoder(f)
+	for {
+		_, err := dec.Decode()
+		switch {
+		case err == io.EOF:
+			return nil
+		case err != nil:
+			return err
+		}
+	}
 }
 
 //--------------------------------------------------------------------------------
